@@ -320,7 +320,8 @@ def e3_minimize(prop_arg, history, case, config, budget=14):
             i += 1
     return cur
 
-MIRIFLAGS = "-Zmiri-symbolic-alignment-check -Zmiri-strict-provenance -Zmiri-disable-isolation"
+# leaks are not what this tier looks for (the ledger does, natively); one field type of the menu leaks on purpose
+MIRIFLAGS = "-Zmiri-symbolic-alignment-check -Zmiri-strict-provenance -Zmiri-disable-isolation -Zmiri-ignore-leaks"
 MIRI_DEFS = 12
 
 
